@@ -4,6 +4,12 @@ import json, os, subprocess
 V = os.path.dirname(os.path.abspath(__file__))
 
 CHECKS = {
+ 'C18': dict(cat='model_checking', tech='stateless preemption-bounded schedule enumeration (DFS, forked executions) of the real mt.c/rng.c under a serialising scheduler with vector-clock race detection; linearisation replay; free-running ThreadSanitizer pass',
+             text='All schedules with <= 2 (thorough: 3) preemptions of 2-3 thread programs over {rngCreate, rngStepR, rngStepR2, rngRekey, rngIsValid, rngClose}, '
+                  'mtCallOnce and the atomic counter primitives, choice points at every mutex/CAS/atomic operation of the real code; on each schedule a '
+                  'happens-before race detector over all instrumented accesses, deadlock/livelock detection, run-once / visibility / balance oracles and a '
+                  'sequential replay of the observed lock order; plus the same bodies free-running with up to 16 threads under ThreadSanitizer.',
+             note='trusted: clang TSan instrumentation (as access hooks), own scheduler/vector clocks (drv/c18/vsched.c), sequential consistency at sync-op granularity', ref='4/C18'),
  'C20': dict(cat='model_checking', tech='explicit-state search of the extracted 64x9 transition graph x history monitors; Spin re-check; exhaustive depth-bounded trace conformance on the live object',
              text='Complete: the transition function is extracted from the real btokPwdTransition on all 64 states x 9 events; the product with the '
                   'history monitors (consecutive wrong PINs, CAN since second wrong PIN) is searched exhaustively from the 16 persistent states with '
